@@ -123,3 +123,40 @@ def nan_replaced(prog, fi):
                 number(x.value) and blank_test(x.targets[0].slice):
             out.append((x, "blank entries overwritten with a number"))
     return out
+
+
+def inplace_on_inherited_dtype(prog, fi):
+    """`v = np.array(p)` (no dtype) takes the dtype of whatever the caller
+    passed; a later in-place update of v (v[i] += e, v += e, v[i] = <float
+    expression>) is cast back to that dtype -- integers truncate a
+    fractional offset.  Returns [(statement, description)]."""
+    mod = prog.modules[fi.module]
+    inherited = {}
+    for st in ast.walk(fi.node):
+        if isinstance(st, ast.Assign) and len(st.targets) == 1 and \
+                isinstance(st.targets[0], ast.Name) and \
+                isinstance(st.value, ast.Call):
+            c = st.value
+            d = prog.dotted(mod, c.func) if isinstance(c.func, ast.Attribute) \
+                else (prog.resolve_name(mod, norm(c.func)) or norm(c.func))
+            if d in ("numpy.array", "numpy.asarray", "numpy.copy",
+                     "numpy.asanyarray", "numpy.atleast_1d") and c.args and \
+                    not any(k.arg == "dtype" for k in c.keywords) and \
+                    len(c.args) < 2 and \
+                    isinstance(c.args[0], ast.Name) and \
+                    c.args[0].id in fi.params:
+                inherited[st.targets[0].id] = st
+    out = []
+    for st in ast.walk(fi.node):
+        if isinstance(st, ast.AugAssign):
+            b = st.target
+            while isinstance(b, ast.Subscript):
+                b = b.value
+            if isinstance(b, ast.Name) and b.id in inherited and \
+                    isinstance(st.op, (ast.Add, ast.Sub, ast.Mult, ast.Div)):
+                out.append((st, "%s is %s, so it has the caller's dtype; "
+                            "`%s` is cast back to it (an integer pixel "
+                            "position truncates the fractional offset)" %
+                            (b.id, norm(inherited[b.id].value, 40),
+                             norm(st, 50))))
+    return out
